@@ -201,6 +201,16 @@ def spell(graph, chain):
     return ("*" if star else "".join(seqs)), (total if known_len else None)
 
 
+def spell_backwards(graph, chain):
+    """The chain walked from its other end (every member in the opposite orientation): where two members
+    disagree inside an overlap this is not the reverse complement of spell() - the overlapping bases are
+    taken from the other member. None for circular chains."""
+    if chain[-1][2] is not None:
+        return None
+    rev = [(chain[i][0], "-" if chain[i][1] == "+" else "+", chain[i - 1][2] if i > 0 else None) for i in range(len(chain) - 1, -1, -1)]
+    return spell(graph, rev)
+
+
 def expected_after_merge(graph, chains):
     """Expected links after merging, with chain members replaced by ('#chain', i)."""
     member = {}
@@ -286,6 +296,12 @@ def flip_chain_ends(cnt, i):
 def prop(case):
     doc = case["doc"]
     lines = gen.doc_lines(doc)
+    if case.get("order") == "edges_first":
+        # the same document with the edges before the segments they join (the order of the lines of a file is free)
+        lines = [x for x in lines if x[:1] in "LCE"] + [x for x in lines if x[:1] not in "LCE"]
+    elif case.get("order") == "reversed":
+        # (the segments keep their relative order: where a circular chain is cut open follows the order of the segments)
+        lines = [x for x in lines if x[:1] in "LCE"][::-1] + [x for x in lines if x[:1] not in "LCE"]
     graph = Graph(doc)
     chains = graph.chains()
     text = "\n".join(lines)
@@ -398,6 +414,14 @@ def prop(case):
                 opts.append(False)
             if (seq != "*" and gs == rc(seq)) or (seq == "*" and gs == "*"):
                 opts.append(True)
+            back = spell_backwards(graph, ch)
+            if back is not None and back[0] != "*":
+                # (the traversal may start from either end of the chain: which end comes first in the file is not
+                #  part of the graph)
+                if gs == back[0] and True not in opts:
+                    opts.append(True)
+                if gs == rc(back[0]) and False not in opts:
+                    opts.append(False)
             if not opts:
                 good = False
                 why.append("sequence: chain %s spelled %r, expected %r or its reverse complement" % ([c[0] for c in ch], gs, seq))
@@ -631,13 +655,15 @@ def _merge_opts(r):
 @st.composite
 def st_case(draw):
     r = draw(st.randoms(use_true_random=False))
-    return {"doc": build_chain_graph(r), "vlevel": gen.choice(r, [1, 1, 2, 3]), "merge_opts": _merge_opts(r)}
+    return {"doc": build_chain_graph(r), "vlevel": gen.choice(r, [1, 1, 2, 3]), "merge_opts": _merge_opts(r),
+            "order": gen.choice(r, [None, None, "edges_first", "reversed"])}
 
 
 @st.composite
 def st_case2(draw):
     r = draw(st.randoms(use_true_random=False))
-    return {"doc": to_gfa2_graph(r, build_chain_graph(r)), "vlevel": gen.choice(r, [1, 1, 2, 3]), "merge_opts": _merge_opts(r)}
+    return {"doc": to_gfa2_graph(r, build_chain_graph(r)), "vlevel": gen.choice(r, [1, 1, 2, 3]), "merge_opts": _merge_opts(r),
+            "order": gen.choice(r, [None, None, "edges_first", "reversed"])}
 
 
 @st.composite
